@@ -10,6 +10,7 @@ import string
 
 from ..lib import coqlit as L
 from ..lib import e2
+from ..lib import lograce
 
 IMPORTS = ["Base", "Config", "Limiter", "Cond", "Template"]
 EXPRS_OK = ["a", "b", "s", "p.name", "d['k']", "len(s)", "a + b", "s.upper()", "lst[0]", "p", "d", "None", "a*2", "G", "(a,b)"]
@@ -123,7 +124,8 @@ def run(ctx):
                 "doubling), fields from 15 evaluating expressions (names, attribute, index, call, arithmetic, module global) "
                 "and 8 failing ones (NameError, ZeroDivisionError, KeyError, AttributeError, RuntimeError, IndexError, "
                 "SyntaxError, SystemExit) x generated frame states; each as a log-only tracepoint and as a collecting "
-                "tracepoint with log_msg; plus malformed templates (single brace, unterminated field) for the scanner. "
+                "tracepoint with log_msg; plus malformed templates (single brace, unterminated field) for the scanner; plus a forced "
+                "two-thread schedule (one thread parked inside a field while another logs). "
                 "Non-trivial: at least one field; distinct: distinct template.")
     ctx.assumptions = [
         "field expressions hold no brace, colon or exclamation mark (format specs / conversions are outside the statement)",
@@ -232,6 +234,8 @@ def run(ctx):
     logging.getLogger("deep").setLevel(logging.CRITICAL + 1)
     ctx.correspond("render", IMPORTS, "tpl_case", "check_tpl_case", lits, cj, shard=150)
     ctx.correspond("scanner_vs_cpython", IMPORTS, "fields_case", "check_fields_case", flits, fcj, shard=150)
+    # forced schedule: thread A parked inside one field of its message while thread B logs (each field "in the paused frame")
+    lograce.run_cases(ctx, 60 if ctx.thorough else 12, "c16")
 
 
 def replay(ctx, data):
